@@ -4,10 +4,12 @@ c="$1"; id="$2"; tier="$3"
 d=$(mktemp -d /tmp/vat.XXXXXX); rmdir "$d"
 git -C /repo worktree add -q --detach "$d" "$c" || exit 3
 cd /verif
+stamp=$(mktemp /tmp/vstamp.XXXXXX)
 cp -r evidence /tmp/vat-evidence.$$ 2>/dev/null
 VERIF_REPO="$d" ./check "$id" "$tier" 2>&1 | grep -v '^    ' | cut -c1-260 | tail -${LINES_OUT:-14}
 rc=${PIPESTATUS[0]}
 rm -rf evidence; mv /tmp/vat-evidence.$$ evidence 2>/dev/null
-git -C /verif status --short replays | awk '{print $2}' | xargs -r rm -rf
+find /verif/replays -type f -newer "$stamp" -print0 2>/dev/null | xargs -0 -r rm -f
 git -C /repo worktree remove --force "$d"
 echo "at $c exit=$rc"
+rm -f "$stamp"
